@@ -170,7 +170,7 @@ def check(ctx):
         fn = repo.fn(q)
         for p in fn.all_params:
             if p in RESTRICT + TYPING:
-                uses = name_uses(fn, p)
+                uses = _effective_uses(fn, p)
                 n_live += 1
                 ctx.ob("FWD-live", fn, f"parameter {p}", fn.node, bool(uses),
                        f"{p} is read at line(s) {sorted({u.lineno for u in uses})}" if uses else
@@ -349,3 +349,41 @@ def check(ctx):
 def pmatch_items(loop_iter, P):
     return isinstance(loop_iter, ast.Call) and isinstance(loop_iter.func, ast.Attribute) and loop_iter.func.attr == "items" \
         and isinstance(loop_iter.func.value, ast.Name) and loop_iter.func.value.id == P
+
+
+def _effective_uses(fn, p):
+    """Loads of parameter ``p`` -- or of a rebinding of the same name computed from it (columns = columns or None) --
+    that do something with the value: a call argument, a test, an iteration, a subscript.  A load whose only
+    role is to compute the next binding of the same name is not a use."""
+    from ..dataflow import defs_reaching
+    derived = set()          # ids of CFG nodes defining p from p
+    changed = True
+    loads = [u for u in name_uses(fn, p) if isinstance(u.ctx, ast.Load)]
+
+    def from_param(u):
+        return any(d.kind == "param" or (d.node is not None and id(d.node) in derived) for d in defs_reaching(fn, p, u))
+    while changed:
+        changed = False
+        for u in loads:
+            if not from_param(u):
+                continue
+            st = u
+            while st is not None and not isinstance(st, ast.stmt):
+                st = fn.module.parent.get(st)
+            if isinstance(st, ast.Assign) and len(st.targets) == 1 and isinstance(st.targets[0], ast.Name) and st.targets[0].id == p:
+                from ..facts import cfg_node_of
+                nd = cfg_node_of(fn, st)
+                if nd is not None and id(nd) not in derived:
+                    derived.add(id(nd))
+                    changed = True
+    out = []
+    for u in loads:
+        if not from_param(u):
+            continue
+        st = u
+        while st is not None and not isinstance(st, ast.stmt):
+            st = fn.module.parent.get(st)
+        if isinstance(st, ast.Assign) and len(st.targets) == 1 and isinstance(st.targets[0], ast.Name) and st.targets[0].id == p:
+            continue
+        out.append(u)
+    return out
